@@ -29,7 +29,7 @@ RULE = ("one run = one manager (real comm.server.TCPServer.run and the socketser
         "after drawn latencies; the scheduler draws which task runs at every yield and which queued "
         "connection is accepted; non-trivial = at least two requests were in flight or queued at the "
         "same time; distinct = (accept order, backlog depth at each accept, schedule decision hash)")
-TIERS = {"quick": {"runs": 3000, "wall": 150}, "thorough": {"runs": 300000, "wall": 2400}}
+TIERS = {"quick": {"runs": 8000, "wall": 240}, "thorough": {"runs": 300000, "wall": 3000}}
 MUTANT_RUNS = 400
 COMPONENTS = {
     "real": ["comm.server (TCPServer.run, _TCPServerRequestHandler, _RequestHandler)",
